@@ -430,6 +430,36 @@ fn removed_spellings(ctx: &mut Ctx) {
     }
 }
 
+/// Mixed numbers whose whole part is in the billions (the parser builds them for `{3000000000 1/2%g}`): their value is
+/// whole + num/den whatever the size, through `value()`, conversion and fitting.
+fn big_mixed_numbers(ctx: &mut Ctx, conv: &Converter) {
+    for (whole, num, den) in [(3_000_000_000u32, 1u32, 2u32), (4_294_967_295, 1, 2), (2_147_483_648, 3, 4), (1_431_655_766, 2, 3), (536_870_912, 7, 8), (4_000_000_000, 15, 16), (268_435_456, 1, 16)] {
+        let n = Number::Fraction { whole, num, den, err: 0.0 };
+        let exact = whole as f64 + num as f64 / den as f64;
+        for (from, to, factor) in [("g", "kg", 1e-3), ("ml", "l", 1e-3), ("s", "min", 1.0 / 60.0), ("g", "g", 1.0)] {
+            let case = Case::new("big_mixed", format!("{whole} {num}/{den} {from} -> {to}"), 0, "bundled");
+            ctx.evals += 1;
+            let res = crate::core::guarded(|| {
+                let v = n.value();
+                let mut q: ScaledQuantity = Quantity::new(Value::Number(n), Some(from.to_string()));
+                let r = if from == to { Ok(()) } else { q.convert(to, conv) };
+                (v, r.is_ok(), amount(q.value()).map(|a| a.0))
+            });
+            match res {
+                Err(p) => ctx.panic_violation(&case, "value/convert", p),
+                Ok((v, ok, got)) => {
+                    if !close(v, exact, 1e-12, 0.0) || !ok || !matches!(got, Some(g) if close(g, exact * factor, 1e-9, 0.0)) {
+                        ctx.violation(&case, "pair", "big_mixed_number_misread", format!("value() = {v}, fields say {exact}; converted ok={ok} to {got:?}, expected {}", exact * factor));
+                    } else {
+                        ctx.nontrivial(&case);
+                        ctx.count("big_mixed_numbers_ok");
+                    }
+                }
+            }
+        }
+    }
+}
+
 /// Three layers, the last two editing the same unit: the last one has the last word.
 fn later_layer_wins(ctx: &mut Ctx) {
     let build = |layers: &[&str]| -> Option<Converter> {
@@ -678,6 +708,7 @@ pub fn run(ctx: &mut Ctx) {
         failures(ctx, &conv);
         removed_spellings(ctx);
         later_layer_wins(ctx);
+        big_mixed_numbers(ctx, &conv);
     }
     // all ordered pairs of units, by every key of each
     let all: Vec<Arc<Unit>> = conv.all_units().map(|u| conv.find_unit(u.symbol()).unwrap()).collect();
